@@ -3,16 +3,6 @@ import asyncio
 import sys
 import types
 
-# third-party packages that are not installed are needed only for import
-for _name in ("usb", "usb.core", "usb.util", "hid", "pymodbus.client.sync"):
-    if _name not in sys.modules:
-        try:
-            __import__(_name)
-        except Exception:
-            _m = types.ModuleType(_name)
-            _m.ModbusSerialClient = _m.ModbusTcpClient = object
-            sys.modules[_name] = _m
-
 from symx import E, Case, vloop
 from harness.common import call
 from harness import rigs
